@@ -435,3 +435,87 @@ def items_event_extra(cx, ex, info, ret, st):
 with_summaries(safety("_trait_default_value_for", "method", props=("C18", "C10"), doc="CTrait.default_value_for(object, name)"))
 with_summaries(safety("validate_trait_complex_number", "validate", props=("C18", "C03"), doc="Complex: exact complex as is, else converted"),
                validate_complex_number=_numeric_summary("PyComplex_Type", "validate_complex_number"))
+
+
+# ---------------------------------------------------------------------------------------------------------------------
+# garbage-collection slots: tp_traverse visits, and tp_clear releases, EVERY object-valued field of the struct -- the field
+# list is read from the struct declaration in ctraits.c on every run, so a field added later without updating the two slots
+# fails here ('garbage collection at any point' of C18: an unvisited field makes reference cycles through it immortal, an
+# uncleared one leaks)
+# ---------------------------------------------------------------------------------------------------------------------
+def struct_object_fields(typedef_name):
+    import re
+    txt = open(front.c_path()).read()
+    m = re.search(r"typedef struct[^{]*\{([^}]*)\}\s*%s\s*;" % re.escape(typedef_name), txt)
+    if not m:
+        raise RuntimeError("struct %s not found" % typedef_name)
+    body = re.sub(r"/\*.*?\*/", "", m.group(1), flags=re.S)
+    return re.findall(r"\bPy\w*Object\s*\*\s*(\w+)\s*;", body)
+
+
+from vc.cvc import front            # noqa: E402
+
+CONVENTIONS["clear"] = (("self",), ())
+CONVENTIONS["traverse"] = (("self", "visit", "arg"), ("arg",))
+
+
+def clear_extra(typedef_name):
+    def extra(cx, ex, info, ret, st):
+        me = info["args"]["self"]
+        fields = struct_object_fields(typedef_name)
+        out = [("post:returns-0", ret == 0), ("post:struct-has-object-fields", z3.BoolVal(len(fields) >= 4))]
+        for f in fields:
+            out.append(("post:field-%s-is-released-and-emptied" % f, ex.field_array(st, f)[me] == NULL))
+        return out
+    return extra
+
+
+safety("has_traits_clear", "clear", returns="int", extra=clear_extra("has_traits_object"), doc="tp_clear of CHasTraits")
+safety("trait_clear", "clear", returns="int", extra=clear_extra("trait_object"), doc="tp_clear of cTrait")
+
+
+def traverse_contract(qualname, typedef_name):
+    class Traverse(CContract):
+        properties = ("C18",)
+        side_props = {"valid-deref": ("C18",), "bounds": ("C18",)}
+        own = True
+        assumptions = ("A-API", "the visit callback returns 0 to continue or a non-zero value to stop (tp_traverse protocol); it takes no references")
+
+        def configure(self, cx, ex, ov):
+            def visit(ex2, fn, args, st, k):
+                r = cx.fresh("vret", INT)
+                return k(r, st.log(("visit", args[0], args[1])))
+            cx.field_call["visitproc"] = visit
+
+        def c_setup(self, cx, ex, ov):
+            me, arg = z3.Consts("self arg", Obj)
+            visit = z3.Int("visit_fn")
+            st = CSt().assume(me != NULL, visit != 0)
+            return st, [me, visit, arg], dict(me=me, arg=arg, st0=st, witness={})
+
+        def c_post(self, cx, ex, ov, info, ret, st):
+            me = info["me"]
+            fields = struct_object_fields(typedef_name)
+            visits = [r for r in st.trace if r[0] == "visit"]
+            out = [("post:struct-has-object-fields", z3.BoolVal(len(fields) >= 4)),
+                   ("post:every-visit-passes-the-caller's-argument", z3.And(*[v[2] == info["arg"] for v in visits]) if visits else z3.BoolVal(True))]
+            for f in fields:
+                val = ex.field_array(info["st0"], f)[me]
+                seen = z3.Or(*[v[1] == val for v in visits]) if visits else z3.BoolVal(False)
+                out.append(("post:field-%s-is-visited-unless-the-walk-was-stopped" % f, z3.Implies(z3.And(val != NULL, ret == 0), seen)))
+            out.append(("post:only-the-struct's-own-objects-are-visited", z3.And(*[
+                z3.Or(*[v[1] == ex.field_array(info["st0"], f)[me] for f in fields]) for v in visits]) if visits else z3.BoolVal(True)))
+            out.append(("post:NULL-is-never-visited", z3.And(*[v[1] != NULL for v in visits]) if visits else z3.BoolVal(True)))
+            o = z3.Const("o!own", Obj)
+            out.append(("own:reference-neutral", z3.ForAll([o], st.own[o] == info["own0"][o])))
+            return out
+
+        def covers(self, cx, ov, info):
+            return [("walks-everything", lambda r, s: r == 0)]
+    Traverse.qualname = qualname
+    Traverse.__name__ = "Traverse_" + qualname
+    return register(Traverse)
+
+
+traverse_contract("has_traits_traverse", "has_traits_object")
+traverse_contract("trait_traverse", "trait_object")
